@@ -245,6 +245,17 @@ func (r *Run) MustQuiesce(where string) ([]G, bool) {
 				sb.WriteString("; ")
 			}
 		}
+		// a goroutine of the library itself that is still running after the whole watchdog period is spinning: a monitor
+		// may treat that as its own kind of finding (r.OnSpin) instead of an inconclusive run
+		var busy []G
+		for _, g := range gs {
+			if !g.Blocked() && g.InLibrary() {
+				busy = append(busy, g)
+			}
+		}
+		if len(busy) > 0 && r.OnSpin != nil {
+			r.OnSpin(where, busy)
+		}
 		r.Inconclusive("quiesce-watchdog/"+where, "process did not become quiescent within "+QuiesceTimeout.String()+": "+sb.String())
 	}
 	return gs, ok
